@@ -125,6 +125,8 @@ class SourceAD(MVPN):
         cursor += sourceiplen
 
         # Validate group IP length
+        if cursor >= len(packed):
+            raise Notify(3, 5, f'Invalid Source Active A-D route: the source length ({sourceiplen * 8} bits) does not fit its {datalen} bytes.')
         groupiplen = int(packed[cursor] / 8)
         if groupiplen != IPv4.BYTES and groupiplen != IPv6.BYTES:
             raise Notify(
@@ -132,6 +134,8 @@ class SourceAD(MVPN):
                 5,
                 f'Unsupported Source Active A-D Route Multicast Group IP length ({groupiplen * 8} bits). Expected 32 bits (IPv4) or 128 bits (IPv6).',
             )
+        if cursor + 1 + groupiplen != len(packed):
+            raise Notify(3, 5, f'Invalid Source Active A-D route: the source and group lengths do not add up to its {datalen} bytes.')
 
         # Missing implementation of this check from RFC 6514:
         # Source Active A-D routes with a Multicast group belonging to the
